@@ -866,7 +866,7 @@ class Expression(Expr):
                 if node._hash_raw_args:
                     for k in sorted(node.args):
                         v = node.args[k]
-                        if v:
+                        if v is not None and v is not False and v != []:
                             hash_ = hash((hash_, k, tuple(v) if type(v) is list else v))
                 else:
                     for k in sorted(node.args):
